@@ -447,6 +447,8 @@ type vfCaseC10Err struct {
 	Op   string // Mkdir | Open | Create | Stat | ReadDir | Read | Write | ListAt | Rename | Remove | ReadLink | StatVFS | Lstat
 	Err  string // entry of the catalogue
 	Wrap string // "" | path | link | syscall | fmtw
+	// ReadAt/WriteAt ops: bytes the handler's object moves before it returns the error (seed C10-h)
+	Partial int `json:",omitempty"`
 }
 
 var vfC10ErrNames = []string{"Ok", "EOF", "NoSuchFile", "PermissionDenied", "Failure", "BadMessage", "NoConnection", "ConnectionLost", "OpUnsupported",
@@ -582,6 +584,34 @@ func vfRunC10Err(ctx *vfCtx, c vfCaseC10Err) {
 		case "StatVFS":
 			target = "StatVFS:StatVFS"
 			_, got = cl.StatVFS("/")
+		// the open succeeds, the error comes from the reader/writer object it returned, alone or behind a
+		// partial transfer ("n bytes, then this error"), on read-only, write-only and read+write handles (seed C10-h)
+		case "ReadAt", "ReadAt@rw", "WriteAt", "WriteAt@rw":
+			var f *sftp.File
+			var e error
+			switch c.Op {
+			case "ReadAt":
+				f, e = cl.Open("/f")
+			case "WriteAt":
+				f, e = cl.OpenFile("/f", os.O_WRONLY)
+			default:
+				f, e = cl.OpenFile("/f", os.O_RDWR)
+			}
+			if e != nil {
+				return "", fmt.Errorf("open for %s: %v", c.Op, e)
+			}
+			h.mu.Lock()
+			h.ioErr, h.ioErrPartial = inj, c.Partial
+			h.mu.Unlock()
+			if strings.HasPrefix(c.Op, "ReadAt") {
+				_, got = f.ReadAt(make([]byte, 16), 8)
+			} else {
+				_, got = f.WriteAt(vfPRFBytes(5, 0, 16), 8)
+			}
+			h.mu.Lock()
+			h.ioErr = nil
+			h.mu.Unlock()
+			f.Close()
 		// the handler call succeeds, the error comes from the lister it returned (seed F05)
 		case "Stat@ListAt":
 			h.listAtErr = func(p string) error { return inj }
@@ -604,12 +634,23 @@ func vfRunC10Err(ctx *vfCtx, c vfCaseC10Err) {
 	if r.Panic != nil {
 		ctx.Failf("panic/"+vfPanicSite([]byte(r.Stack)), "%v\n%s", r.Panic, vfTrimStack([]byte(r.Stack)))
 	}
+	if r.Err != nil {
+		ctx.Failf("harness/c10-err-setup", "%v", r.Err)
+	}
+	if strings.HasPrefix(c.Op, "ReadAt") && (wantCode == vfFxOK || (wantCode == vfFxEOF && c.Partial > 0)) {
+		// (n > 0, io.EOF) is a reader's way of delivering the last bytes, and an OK status is no answer to a READ
+		ctx.Class("skipped-readat-eof")
+		wantCode = -9
+	}
 	if strings.HasSuffix(c.Op, "@ListAt") && (wantCode == vfFxEOF || wantCode == vfFxOK) {
 		// (0, io.EOF) from a lister is its way of saying "no entries", and an OK status is no error at all
 		ctx.Class("skipped-listat-eof")
 		wantCode = -9
 	}
 	desc := fmt.Sprintf("%s with the handler returning %T %v", c.Op, inj, inj)
+	if c.Partial > 0 {
+		desc = fmt.Sprintf("%s with the handler's object returning (%d, %T %v)", c.Op, c.Partial, inj, inj)
+	}
 	key := "C10/error-kind/" + c.Err
 	if c.Wrap != "" {
 		key += "/" + c.Wrap
@@ -653,7 +694,7 @@ func vfRunC10Err(ctx *vfCtx, c vfCaseC10Err) {
 }
 
 var vfC10ErrOps = []string{"Mkdir", "Rename", "PosixRename", "RemoveDirectory", "Symlink", "Chmod", "Open", "OpenWrite", "Create", "Stat", "Lstat", "ReadLink", "ReadDir", "StatVFS",
-	"Stat@ListAt", "Lstat@ListAt", "ReadLink@ListAt", "ReadDir@ListAt"}
+	"Stat@ListAt", "Lstat@ListAt", "ReadLink@ListAt", "ReadDir@ListAt", "ReadAt", "ReadAt@rw", "WriteAt", "WriteAt@rw"}
 
 // ---- (D): attributes as given -----------------------------------------------------------------
 //
@@ -814,15 +855,21 @@ func TestVerifC10(t *testing.T) {
 						if w != "" && !std {
 							continue // os wrappers only around os/io/syscall errors
 						}
-						if e == "Ok" && !(op == "Mkdir" || op == "Rename" || op == "PosixRename" || op == "RemoveDirectory" || op == "Symlink" || op == "Chmod") {
+						if e == "Ok" && !(op == "Mkdir" || op == "Rename" || op == "PosixRename" || op == "RemoveDirectory" || op == "Symlink" || op == "Chmod" || strings.HasPrefix(op, "WriteAt")) {
 							continue // a bare OK status is only a legal success for status-answered requests
 						}
-						n++
-						if !vfMine(n) {
-							continue
+						partials := []int{0}
+						if strings.HasPrefix(op, "ReadAt") || strings.HasPrefix(op, "WriteAt") {
+							partials = []int{0, 5, 16}
 						}
-						if !yield(vfCaseC10Err{Op: op, Err: e, Wrap: w}) {
-							return
+						for _, part := range partials {
+							n++
+							if !vfMine(n) {
+								continue
+							}
+							if !yield(vfCaseC10Err{Op: op, Err: e, Wrap: w, Partial: part}) {
+								return
+							}
 						}
 					}
 				}
